@@ -47,9 +47,17 @@ func wsWErr(err error) string {
 type wsChunkReader struct {
 	data []byte
 	ks   []int
+	// eofWithData: return io.EOF together with the last bytes (allowed by the io.Reader contract; what
+	// iotest.DataErrReader and HTTP bodies of known length do)
+	eofWithData bool
 }
 
-func (r *wsChunkReader) Read(p []byte) (int, error) {
+func (r *wsChunkReader) Read(p []byte) (n int, err error) {
+	defer func() {
+		if r.eofWithData && n > 0 && len(r.data) == 0 {
+			err = io.EOF
+		}
+	}()
 	if len(r.data) == 0 {
 		return 0, io.EOF
 	}
@@ -125,6 +133,8 @@ type c13Gen struct {
 	res     []string // implementation results per op
 	msgs    []c13Msg // data messages that went out successfully
 	descr   []string // API used per message (bucket)
+	// a ReadFrom source in this session returned io.EOF together with its last bytes
+	eofWithData bool
 }
 
 // genData returns the bytes and the byte field to use in the model script (p:n:seed for long ones).
@@ -281,7 +291,10 @@ func (g *c13Gen) message() {
 				ks[i] = 1
 			}
 		}
-		src := &wsChunkReader{data: data, ks: append([]int(nil), ks...)}
+		src := &wsChunkReader{data: data, ks: append([]int(nil), ks...), eofWithData: len(data)%2 == 1}
+		if src.eofWithData && !compressed {
+			g.eofWithData = true
+		}
 		if compressed {
 			// the flate wrapper has no ReadFrom: io.Copy reads 32 KiB blocks and calls Write
 			rec := &recWriter{w: w}
@@ -481,9 +494,16 @@ func c13Session(c *h.Ctx, B int, server, deflate bool, level int, nmsg int, with
 	}
 	args := append([]string{"ws.write", role, fmt.Sprint(B), b01(deflate), keyArg}, g.ops...)
 	mrep := kvLine(c.O.Call(args...))
-	c.Eq("ws.write.wire", in, h.Trunc(wireHex, 4000), h.Trunc(mrep["wire"], 4000))
-	if wireHex != mrep["wire"] && h.Trunc(wireHex, 4000) == h.Trunc(mrep["wire"], 4000) {
-		c.Fail("correspondence", "ws.write.wire", in, "wire differs beyond 4000 hex digits", "")
+	if g.eofWithData {
+		// a source that returns io.EOF TOGETHER with its last bytes saves ReadFrom one loop iteration (no flush of an
+		// exactly full buffer before the EOF read): the frame boundaries may legitimately differ from the model, whose
+		// ReadFrom op has the EOF read separate. Payload, well-formedness and the peer's view are checked above/below.
+		c.Trace()
+	} else {
+		c.Eq("ws.write.wire", in, h.Trunc(wireHex, 4000), h.Trunc(mrep["wire"], 4000))
+		if wireHex != mrep["wire"] && h.Trunc(wireHex, 4000) == h.Trunc(mrep["wire"], 4000) {
+			c.Fail("correspondence", "ws.write.wire", in, "wire differs beyond 4000 hex digits", "")
+		}
 	}
 	c.Eq("ws.write.results", in, strings.Join(g.res, ","), mrep["res"])
 	// (4) the peer (a real Conn of the opposite role) receives the same sequence
@@ -645,7 +665,8 @@ func c13(c *h.Ctx) {
 	// 5. opening handshake: real Dial/Upgrade over loopback, both compression settings
 	for _, sc := range []bool{false, true} {
 		for _, cc := range []bool{false, true} {
-			c13Handshake(c, sc, cc)
+			c13Handshake(c, sc, cc, false)
+			c13Handshake(c, sc, cc, true)
 		}
 	}
 }
@@ -670,6 +691,7 @@ func c13Single(c *h.Ctx, B int, server bool, sz int) {
 		conn := ws.VerifNewConn(fake, server, 0, B, false)
 		field, data := wsPayload(r, sz)
 		var ops []string
+		eofData := false
 		switch api {
 		case 0:
 			conn.WriteMessage(ws.BinaryMessage, data)
@@ -686,7 +708,8 @@ func c13Single(c *h.Ctx, B int, server bool, sz int) {
 			ops = []string{"N;2", "S;" + field, "C"}
 		case 3:
 			w, _ := conn.NextWriter(ws.BinaryMessage)
-			io.Copy(w, &wsChunkReader{data: data})
+			eofData = len(data)%3 != 0
+			io.Copy(w, &wsChunkReader{data: data, eofWithData: eofData})
 			w.Close()
 			ops = []string{"N;2", "R;_;" + field, "C"}
 		}
@@ -719,8 +742,10 @@ func c13Single(c *h.Ctx, B int, server bool, sz int) {
 			keyArg = strings.Join(keys, ",")
 		}
 		m := kvLine(c.O.Call(append([]string{"ws.write", role, fmt.Sprint(B), "0", keyArg}, ops...)...))
-		c.Eq("ws.write.wire", in, h.Trunc(h.Hex(wire), 2000), h.Trunc(m["wire"], 2000))
-		c.Hold(h.Hex(wire) == m["wire"], "ws.write.wire.full", in, "differs", "equal")
+		if !eofData {
+			c.Eq("ws.write.wire", in, h.Trunc(h.Hex(wire), 2000), h.Trunc(m["wire"], 2000))
+			c.Hold(h.Hex(wire) == m["wire"], "ws.write.wire.full", in, "differs", "equal")
+		}
 		c.Case(fmt.Sprintf("single/%s/B=%d/api=%d/frames=%d", role, B, api, min(len(frames), 4)), in+fmt.Sprint(sz), true)
 	}
 }
@@ -733,6 +758,10 @@ type recConn struct {
 	wr, rd  bytes.Buffer
 	markedW int
 	markedR int
+	// delayFirstRead: wait before the first Read so that the server's 101 response AND the frames it sends
+	// right after Upgrade are delivered by one transport read (a server that speaks first)
+	delayFirstRead time.Duration
+	readOnce       sync.Once
 }
 
 func (c *recConn) Write(p []byte) (int, error) {
@@ -743,6 +772,7 @@ func (c *recConn) Write(p []byte) (int, error) {
 	return n, err
 }
 func (c *recConn) Read(p []byte) (int, error) {
+	c.readOnce.Do(func() { time.Sleep(c.delayFirstRead) })
 	n, err := c.Conn.Read(p)
 	c.mu.Lock()
 	c.rd.Write(p[:n])
@@ -750,8 +780,8 @@ func (c *recConn) Read(p []byte) (int, error) {
 	return n, err
 }
 
-func c13Handshake(c *h.Ctx, serverCompress, clientCompress bool) {
-	in := fmt.Sprintf("handshake serverCompression=%v clientCompression=%v", serverCompress, clientCompress)
+func c13Handshake(c *h.Ctx, serverCompress, clientCompress, serverFirst bool) {
+	in := fmt.Sprintf("handshake serverCompression=%v clientCompression=%v serverSpeaksFirst=%v", serverCompress, clientCompress, serverFirst)
 	res := h.Safe(func() string {
 		ln, err := net.Listen("tcp", "127.0.0.1:0")
 		if err != nil {
@@ -775,18 +805,29 @@ func c13Handshake(c *h.Ctx, serverCompress, clientCompress bool) {
 			}
 			defer conn.Close()
 			var out srvOut
-			for range fromClient {
-				t, p, err := conn.ReadMessage()
-				if err != nil {
-					out.err = "server read: " + err.Error()
-					break
+			readAll := func() {
+				for range fromClient {
+					t, p, err := conn.ReadMessage()
+					if err != nil {
+						out.err = "server read: " + err.Error()
+						break
+					}
+					out.msgs = append(out.msgs, c13Msg{t, p})
 				}
-				out.msgs = append(out.msgs, c13Msg{t, p})
 			}
-			for _, m := range toSend {
-				if err := conn.WriteMessage(m.ty, m.data); err != nil {
-					out.err = "server write: " + err.Error()
+			writeAll := func() {
+				for _, m := range toSend {
+					if err := conn.WriteMessage(m.ty, m.data); err != nil {
+						out.err = "server write: " + err.Error()
+					}
 				}
+			}
+			if serverFirst {
+				writeAll() // immediately after Upgrade: may share a TCP segment / transport read with the 101 response
+				readAll()
+			} else {
+				readAll()
+				writeAll()
 			}
 			conn.WriteControl(ws.CloseMessage, ws.FormatCloseMessage(1000, ""), time.Now().Add(time.Second))
 			// wait for the client's close echo so that everything is on the wire before the recording is read
@@ -805,6 +846,9 @@ func c13Handshake(c *h.Ctx, serverCompress, clientCompress bool) {
 					return nil, err
 				}
 				rc = &recConn{Conn: nc}
+				if serverFirst {
+					rc.delayFirstRead = 60 * time.Millisecond
+				}
 				return rc, nil
 			}}
 		conn, resp, err := d.Dial("ws://"+ln.Addr().String()+"/", nil)
@@ -815,19 +859,33 @@ func c13Handshake(c *h.Ctx, serverCompress, clientCompress bool) {
 		rc.mu.Lock()
 		rc.markedW, rc.markedR = rc.wr.Len(), rc.rd.Len()
 		reqText, respText := rc.wr.String(), rc.rd.String()
+		if i := strings.Index(respText, "\r\n\r\n"); serverFirst && i >= 0 {
+			// frames may already have arrived with the response: the frame stream starts right after the header block
+			rc.markedR = i + 4
+			respText = respText[:i+4]
+		}
 		rc.mu.Unlock()
 		negotiated := strings.Contains(strings.ToLower(resp.Header.Get("Sec-Websocket-Extensions")), "permessage-deflate")
 		c.Hold(negotiated == (serverCompress && clientCompress), "handshake.extension_negotiation", in, fmt.Sprint(negotiated), fmt.Sprint(serverCompress && clientCompress))
 		c.Hold(strings.HasSuffix(reqText, "\r\n\r\n") && strings.HasSuffix(respText, "\r\n\r\n") && strings.HasPrefix(respText, "HTTP/1.1 101 "),
 			"handshake.http_exchange", in, h.Trunc(respText, 120), "101 response, nothing after the header block")
+		var got []c13Msg
+		var last error
+		conn.SetReadDeadline(time.Now().Add(3 * time.Second))
+		if serverFirst {
+			for range toSend {
+				t, p, err := conn.ReadMessage()
+				if err != nil {
+					return "client read (server speaks first): " + err.Error()
+				}
+				got = append(got, c13Msg{t, p})
+			}
+		}
 		for _, m := range fromClient {
 			if err := conn.WriteMessage(m.ty, m.data); err != nil {
 				return "client write: " + err.Error()
 			}
 		}
-		var got []c13Msg
-		var last error
-		conn.SetReadDeadline(time.Now().Add(3 * time.Second))
 		for {
 			t, p, err := conn.ReadMessage()
 			if err != nil {
